@@ -47,6 +47,9 @@ CHECKS = {
  "C20": ("exploration", "guard-directory snapshot monitor (lstat + sha256 + link target + mtime of everything outside the designated directory) plus strace write tracing, around hostile inputs",
          "≈3.9 k cases per quick run (49 k thorough): regctl artifact get with hostile title annotations and hostile unpacked tars (with/without --strip-dirs), regctl image import and layout commands, archive.Extract, the tar reader, ImageImport, and 36 ocidir operations (through RegClient and OCIDir) with escaping digests / tags / descriptors and layouts whose index or manifests carry them; any create / modify / delete / mtime change outside the designated directory is a violation; reads outside are counted only.",
          "Every hostile path, under every reading (absolute, relative to output dir / cwd / layout, NUL-cut, decoded separators), is asserted to resolve inside the guard tree below $VERIF_BIN before it is used; the check never names a path outside $VERIF_BIN. Runs without -race (file-system property).", "§3 C20"),
+ "C02": ("exploration", "fetch oracle with the harness' own hashes + byte comparison of re-pushed bodies at a recording registry + per-setter equation monitor with re-parse and independent JSON decode",
+         "≈62 k cases per quick run: 40 k manifest.New calls over generated texts of all seven manifest types x digest sources (reference / descriptor / header / none, right or wrong) x sha256/sha512 x Content-Type right/wrong/absent; 1.5 k registry fetches (by tag / digest, registry serving other bytes under the name, lying or absent digest header, cache on/off) each followed by a re-push whose PUT body is compared byte for byte; 300 layout fetches; 20 k setter programs of 0-6 calls with the equation (descriptor = hash/len of MarshalJSON = RawBody, media type unchanged, serialisation parses back to every getter) checked after every call; 300 get / edit / get-again histories with the response cache on and off.",
+         "At most one requester-side digest source per case (contradictory caller input is a caller error). Signed schema1 is named by its JWS payload digest (fixture from the repository's own tests).", "§3 C02"),
 }
 NOT_APPLICABLE = {}
 
